@@ -108,6 +108,23 @@ def run(ctx, spec):
                 got_d = fn(cn2p, second, lam)
                 want_d = fn(cn2p, second, lam, axis=-1)
                 rel(ctx, name + ":default_axis", got_d, want_d, T, name + ":default_axis", {"shape": shape})
+        # one Cn2 profile against a stack of wind / altitude profiles (broadcasting), integer-typed altitudes and winds
+        nl = int(rng.integers(2, 7))
+        c1 = 10 ** rng.uniform(-16, -13, nl)
+        stack2 = 10 ** rng.uniform(1, 4.3, (int(rng.integers(2, 5)), nl))
+        ctx.case("profile_broadcast", key=("bc", nl, float(c1[0])), nontrivial=True)
+        for name, fn in (("isoplanaticAngle", ac.isoplanaticAngle), ("coherenceTime", ac.coherenceTime), ("rytov_variance", ac.rytov_variance)):
+            got = pure_call(ctx, name, fn, c1, stack2, lam)
+            want = np.array([fn(c1.copy(), row.copy(), lam) for row in stack2])
+            rel(ctx, name + ":profile_vs_stack_broadcast", got, want, T, name + ":broadcast_single_profile_with_stack", {"layers": nl, "stack": stack2.shape})
+            got2 = fn(np.tile(c1, (stack2.shape[0], 1)), stack2, lam)
+            rel(ctx, name + ":tiled", got2, want, T, name + ":axis_vs_loop", {"layers": nl})
+        hint = rng.integers(1, 25000, nl)                    # integer-typed altitudes (metres) / wind speeds
+        vint = rng.integers(1, 60, nl)
+        for name, fn, arr in (("isoplanaticAngle", ac.isoplanaticAngle, hint), ("rytov_variance", ac.rytov_variance, hint), ("coherenceTime", ac.coherenceTime, vint)):
+            for dt in (np.int64, np.int32):
+                got = pure_call(ctx, name, fn, c1, arr.astype(dt), lam)
+                rel(ctx, name + ":integer_dtype", got, fn(c1, arr.astype(np.float64), lam), 1e-10, name + ":integer_typed_profile", {"dtype": str(np.dtype(dt)), "values": arr[:4].tolist()})
         # rytov definition on one layer
         rel(ctx, "rytov", ac.rytov_variance(np.array([cn2]), np.array([h]), lam), 2.25 * (2 * np.pi / lam) ** (7 / 6.) * cn2 * h ** (5 / 6.), T, "rytov:definition", wit)
         # --- slope variance <-> r0 ---
